@@ -269,16 +269,26 @@ pub fn provers(rec: &mut Rec, dmax: usize, max_pts: usize) {
         }
     }
     // several polynomials: the batched time proof equals the proof of the explicit linear combination
-    for m in 1..=3usize.min(max_pts) {
+    // length profiles: the original ascending one per m, and EVERY sequence of 1..3 lengths over {1, 2, 3, 9}
+    // (polynomials with no more coefficients than evaluation points - zero quotient - before, between and after long ones)
+    let mut profiles: Vec<Vec<usize>> = (1..=3usize.min(max_pts)).map(|m| (0..m).map(|i| 6 + 2 * i).collect()).collect();
+    let lens = [1usize, 2, 3, 9];
+    for m in 1..=3usize {
+        for code in 0..lens.len().pow(m as u32) {
+            profiles.push((0..m).map(|i| lens[code / lens.len().pow(i as u32) % lens.len()]).collect());
+        }
+    }
+    for profile in profiles {
+        let m = profile.len();
         for (en, eta) in [("0", F::zero()), ("1", F::one()), ("r1", rho::<F>(rec.seed, 1))] {
-            let id = format!("STR/batch/m={}/eta={}", m, en);
+            let id = if profile.iter().enumerate().all(|(i, l)| *l == 6 + 2 * i) { format!("STR/batch/m={}/eta={}", m, en) } else { format!("STR/batch/lengths={:?}/eta={}", profile, en).replace(' ', "") };
             if !rec.take(&id) {
                 continue;
             }
             rec.dim("family", "provers");
             let ck = str_key(12, max_pts, rec.seed);
             let vk = SVk::from(&ck);
-            let polys: Vec<Vec<F>> = (0..m).map(|i| rho_stream::<F>(rec.seed, 40 + i as u64, 6 + 2 * i)).collect();
+            let polys: Vec<Vec<F>> = profile.iter().enumerate().map(|(i, l)| rho_stream::<F>(rec.seed, 40 + i as u64, *l)).collect();
             let refs: Vec<&Vec<F>> = polys.iter().collect();
             for (pn, pset) in point_sets(rec.seed, max_pts.min(4)) {
                 rec.count_points(1);
